@@ -354,7 +354,31 @@ func TestC04(t *testing.T) {
 				case "l1info":
 					droppedHashes = append(droppedHashes, sampleH(g, readHashes(A.DB, "l1_info_root"), 4)...)
 				}
-				if err := A.Reorg(b); err != nil {
+				// sometimes the node has just detected an inconsistency (halted, nothing stored) when
+				// the reorg arrives
+				if kind != "ger" && g.Intn(4) == 0 && (kind != "l1info" || len(h.l1.Ref.Leaves) > 0) {
+					hb, cause := c14HaltingBlock(h, g.Intn(6))
+					if err := A.Process(hb); err == nil {
+						r.Violation("C04:"+kind+":inconsistent-block-accepted", caseID, "block with "+cause+" was accepted", sc)
+						return
+					}
+					trace = append(trace, "halting block ("+cause+") refused before the reorg")
+					if b > tip { // a reorg that removes nothing would (rightly) leave the node halted
+						b, posClass = tip, "tip"
+					}
+				}
+				// a concurrent reader may be in the middle of a query (holding a pooled connection)
+				var cursor *sql.Rows
+				if g.Intn(2) == 0 {
+					if cursor, _ = A.DB.Query("SELECT num FROM block"); cursor != nil {
+						cursor.Next()
+					}
+				}
+				err := A.Reorg(b)
+				if cursor != nil {
+					cursor.Close()
+				}
+				if err != nil {
 					r.Violation("C04:"+kind+":reorg-error", caseID, fmt.Sprintf("Reorg(%d): %v", b, err), sc)
 					return
 				}
